@@ -527,7 +527,9 @@ structure ReplayResult where
   definedBitsChecked : Nat := 0
   dump : List (String × String) := []       -- all signal values at the first failing CHECK
   firstSetLine : Nat := 0                   -- vector line of the first SET (0 = none)
-  metaPresent : Bool := false               -- some signal or variable of the design held a metavalue at the first failing CHECK
+  metaPresent : Bool := false               -- some signal or variable of the design held a metavalue at some settled instant between the
+                                            -- first applied stimulus and the first failing CHECK (a metavalue can leave its trace in a register
+                                            -- — e.g. an enable `X = '1'` that is FALSE — and be gone when the difference becomes visible)
 
 /-- replay the vector stream on the elaborated design -/
 def replay (k : Kernel) (top : Entity) (hdr : TbHeader) (items : List (Nat × VecItem)) : Except String ReplayResult := do
@@ -545,6 +547,14 @@ def replay (k : Kernel) (top : Entity) (hdr : TbHeader) (items : List (Nat × Ve
         | _ => Val.sl .X
       (c.name, v)
   let bump := fun (clocks : List ClockGen) (t : Nat) => clocks.map fun c => if c.next == t then { c with next := c.next + c.halfFs } else c
+  let hasMeta := fun (v : Val) => match normVal v with
+    | .sl a => a.to01?.isNone
+    | .lit a => a.any (·.to01?.isNone)
+    | .mem ws => ws.any (·.any (·.to01?.isNone))
+    | _ => false
+  let stateHasMeta := fun (st : KState) => st.cur.toList.any (fun (_, v) => hasMeta v) || st.vars.any (·.any (fun (_, v) => hasMeta v))
+  let mut stimApplied := false
+  let mut metaEver := false
   for (ln, it) in items do
     match it with
     | .adv ps =>
@@ -554,6 +564,8 @@ def replay (k : Kernel) (top : Entity) (hdr : TbHeader) (items : List (Nat × Ve
       if !(togglesAt st clocks now).isEmpty then res := { res with edges := res.edges + 1 }
       clocks := bump clocks now
       st ← applyExt k st ext
+      if !pending.isEmpty then stimApplied := true
+      if stimApplied && !metaEver then metaEver := stateHasMeta st
       pending := []
       -- 2. clock toggles strictly before the target time
       let mut fuel := 100000
@@ -566,6 +578,7 @@ def replay (k : Kernel) (top : Entity) (hdr : TbHeader) (items : List (Nat × Ve
             let ext := togglesAt st clocks t
             clocks := bump clocks t
             st ← applyExt k st ext
+            if stimApplied && !metaEver then metaEver := stateHasMeta st
             res := { res with edges := res.edges + 1 }
           else fuel := 0
         | none => fuel := 0
@@ -584,13 +597,7 @@ def replay (k : Kernel) (top : Entity) (hdr : TbHeader) (items : List (Nat × Ve
         res := { res with checks := res.checks + 1, definedBitsChecked := res.definedBitsChecked + (v.toList.filter (fun c => c == '0' || c == '1')).length }
         if !stdMatchVal cur pat then
           if res.fails.isEmpty then
-            let hasMeta := fun (v : Val) => match normVal v with
-              | .sl a => a.to01?.isNone
-              | .lit a => a.any (·.to01?.isNone)
-              | .mem ws => ws.any (·.any (·.to01?.isNone))
-              | _ => false
-            res := { res with dump := st.cur.toList.map (fun (n, v) => (n, v.toText)),
-                              metaPresent := st.cur.toList.any (fun (_, v) => hasMeta v) || st.vars.any (·.any (fun (_, v) => hasMeta v)) }
+            res := { res with dump := st.cur.toList.map (fun (n, v) => (n, v.toText)), metaPresent := metaEver || stateHasMeta st }
           res := { res with fails := res.fails ++ [{ line := ln, sig := s, expected := v, got := (retag ty cur).toText, timeFs := now, hard := hardMismatch cur pat }] }
       | _, _ => throw s!"vector line {ln}: '{s}' is not a port of the top entity"
   st ← applyExt k st pending
